@@ -67,8 +67,10 @@ func (p *Parser) parseNext() error {
 
 	c := p.data[p.pos]
 
-	// Check for potential operator (starts with letter)
-	if isLetter(c) {
+	// Check for potential operator (starts with a letter; the text operators
+	// ' and " consist of a single quote character). The keywords true, false
+	// and null are operands, not operators.
+	if (isLetter(c) || c == '\'' || c == '"') && !p.atKeywordOperand() {
 		return p.parseOperator()
 	}
 
@@ -162,12 +164,8 @@ func (p *Parser) parseOperand() (core.Object, error) {
 
 	// Boolean or null
 	if c == 't' || c == 'f' || c == 'n' {
-		// Check if it's actually an operator
-		// Peek ahead to see if followed by whitespace
-		end := p.pos
-		for end < len(p.data) && !isWhitespace(p.data[end]) {
-			end++
-		}
+		// The keyword ends at whitespace or at a delimiter such as ']' or '>>'
+		end := p.regularRunEnd()
 		token := string(p.data[p.pos:end])
 
 		switch token {
@@ -490,6 +488,26 @@ func (p *Parser) parseDict() (core.Object, error) {
 	}
 
 	return dict, nil
+}
+
+// regularRunEnd returns the end of the run of regular characters (neither
+// whitespace nor delimiter) that starts at the current position.
+func (p *Parser) regularRunEnd() int {
+	end := p.pos
+	for end < len(p.data) && !isWhitespace(p.data[end]) && !isDelimiter(p.data[end]) {
+		end++
+	}
+	return end
+}
+
+// atKeywordOperand reports whether the token at the current position is one of
+// the keyword operands true, false or null.
+func (p *Parser) atKeywordOperand() bool {
+	switch string(p.data[p.pos:p.regularRunEnd()]) {
+	case "true", "false", "null":
+		return true
+	}
+	return false
 }
 
 // skipWhitespace advances past PDF whitespace characters.
